@@ -29,7 +29,7 @@ POSITIVE = [
     ("sp-cursor-skips-upcoming-phrase", ["C05"], I, "        if not candidate.tick_is_during_event(tick):\n            return None, candidate_index", "        if not candidate.tick_is_during_event(tick):\n            return None, min(candidate_index + 1, len(star_power_events) - 1)"),
     ("sp-end-inclusive", ["C05"], I, "        return tick >= self.end_tick", "        return tick > self.end_tick"),
     # --- C06 / C13 ---------------------------------------------------------------------------
-    ("header-table-misses-medium", ["C06", "C13"], C, "for i, d in itertools.product(Instrument, Difficulty)}", "for i, d in itertools.product(Instrument, Difficulty) if d is not Difficulty.MEDIUM or i is Instrument.GUITAR}"),
+    ("header-table-misses-medium", ["C06"], C, "for i, d in itertools.product(Instrument, Difficulty)}", "for i, d in itertools.product(Instrument, Difficulty) if d is not Difficulty.MEDIUM or i is Instrument.GUITAR}"),
     ("want-tracks-break", ["C13"], C, "                if want_tracks is not None and instrument_difficulty_pair not in want_tracks:\n                    continue", "                if want_tracks is not None and instrument_difficulty_pair not in want_tracks:\n                    break"),
     ("events-parser-fed-sync-lines", ["C06", "C09"], C, "            data_sections[GlobalEventsTrack.header_tag], sync_track.bpm_events", "            data_sections[SyncTrack.header_tag], sync_track.bpm_events"),
     ("body-window-one-too-wide", ["C06"], C, "                    lines, curr_first_line_index, curr_last_line_index + 1\n", "                    lines, curr_first_line_index, curr_last_line_index + 2\n"),
